@@ -188,7 +188,7 @@ theorem eff_invQ (s : St) (e : Ev) (hp : pre s e = none) (h : InvQ s) : InvQ (ef
     simp only [pre, preCreate] at hp
     have hns : (s.th t).st ≠ .sleep := by
       intro hs
-      by_cases hc : s.tids.contains t = true
+      by_cases hc : s.tids.contains t = true ∧ (s.th t).st ≠ .done
       · rw [if_pos hc] at hp; exact absurd hp (by simp)
       · rw [if_neg hc, if_pos hs] at hp; exact absurd hp (by simp)
     have hnq := not_in_queue_of_run s h t hns
